@@ -32,7 +32,7 @@ def run(ctx):
                 w_ = rng.choice([None, None, None, "abs", "concat"]) if a in ("count", "sum", "min", "max") else None
                 aggs.append((a, c_, w_))
             where = rng.choice(WHERES)
-            order = rng.choice(["", "", "key", "key desc", "agg", "agg desc"])
+            order = rng.choice(["", "", "key", "key desc", "agg", "agg desc", "unselected", "unselected desc", "agg_then_key"])
             jobs.append(dict(root=os.path.basename(root), keys=keys, aggs=aggs, where=where, order=order))
 
     def one(j):
@@ -42,23 +42,41 @@ def run(ctx):
         sel = j["keys"] + [spell(a, c, w) for a, c, w in j["aggs"]]
         tail = "from %s %s group by %s" % (j["root"], j["where"], ", ".join(j["keys"]))
         ob = ""
+        desc = j["order"].endswith("desc")
         if j["order"].startswith("key"):
-            ob = " order by %s%s" % (j["keys"][0], " desc" if j["order"].endswith("desc") else "")
+            ob = " order by %s%s" % (j["keys"][0], " desc" if desc else "")
         elif j["order"].startswith("agg"):
-            # only integer-valued aggregates sort numerically in the grouped path (recorded finding F14 otherwise)
-            cand = [i for i, (a, c, w) in enumerate(j["aggs"]) if a in ("count", "sum", "min", "max") and w is None]
+            # any aggregate orders numerically (integers exactly, fractions by value); count(*) .. stddev alike
+            cand = [i for i, (a, c, w) in enumerate(j["aggs"]) if w is None]
             if cand:
                 a, c, _w = j["aggs"][cand[0]]
-                ob = " order by %s(%s)%s" % (a, c, " desc" if j["order"].endswith("desc") else "")
                 j["order_idx"] = len(j["keys"]) + cand[0]
+                if j["order"] == "agg_then_key":
+                    ob = " order by %s(%s) desc, %s" % (a, c, j["keys"][0])
+                else:
+                    ob = " order by %s%s" % (rng.choice(["%s(%s)" % (a, c), str(j["order_idx"] + 1)]), " desc" if desc else "")
             else:
                 j["order"] = ""
+        elif j["order"].startswith("unselected"):
+            # an ordering key need not be selected: an aggregate that is not in the select list, or (below, query B) the grouping key itself
+            j["unsel"] = "key" if len(j["keys"]) == 1 and rng.random() < 0.5 else "count"
+            if j["unsel"] == "count":
+                j["aggs"] = [x for x in j["aggs"] if x[0] != "count"] or [("sum", "size", None)]
+                sel = j["keys"] + [spell(a, c, w) for a, c, w in j["aggs"]]
+                ob = " order by count(*)%s" % (" desc" if desc else "")
+            else:
+                ob = " order by %s%s" % (j["keys"][0], " desc" if desc else "")
         rows, r = qlib.select(ctx.impl, ", ".join(sel), tail + ob, cwd=ctx.scratch, ncols=len(sel))
         base_cols = sorted({c for _, c, _w in j["aggs"] if c != "*"}) or ["size"]
         raw, r0 = qlib.select(ctx.impl, ", ".join(j["keys"] + base_cols), "from %s %s" % (j["root"], j["where"]), cwd=ctx.scratch, ncols=len(j["keys"]) + len(base_cols))
         # ungrouped aggregates of the same query, from the binary itself (conservation)
         ung, r1 = qlib.select(ctx.impl, "count(*), sum(size)", "from %s %s" % (j["root"], j["where"]), cwd=ctx.scratch, ncols=2)
         grp, r2 = qlib.select(ctx.impl, "%s, count(*), sum(size)" % j["keys"][0], "from %s %s group by %s" % (j["root"], j["where"], j["keys"][0]), cwd=ctx.scratch, ncols=3)
+        j["rows_b"] = None
+        if j["order"].startswith("unselected") and j["unsel"] == "key":
+            # query B: the same grouped query without the key column, ordered by the (now unselected) key
+            j["rows_b"], _rb = qlib.select(ctx.impl, ", ".join(sel[1:]), tail + ob, cwd=ctx.scratch, ncols=len(sel) - 1)
+            j["query_b"] = _rb["query"]
         return j, rows, r, base_cols, raw, r0, ung, grp
 
     st = dict(agreed=0, distinct=set(), samples=[], hist=collections.Counter())
@@ -106,21 +124,38 @@ def run(ctx):
         if ung and (sum(int(g[1]) for g in grp) != int(ung[0][0]) or sum(int(g[2]) for g in grp) != int(ung[0][1])):
             ctx.violation("impl-violates-spec", "group COUNTs / SUMs do not add up to the ungrouped COUNT / SUM", input=case, observed=[list(g) for g in grp][:10], expected=list(ung[0]))
             continue
-        # ordering of group rows
-        if j["order"].startswith("key"):
+        # ordering of group rows: the typed comparison of ungrouped rows - numeric keys and every aggregate by value, other keys as text
+        def fnum(s):
+            try:
+                return float(s)
+            except ValueError:
+                return 0.0
+        NUMERIC_KEYS = ("uid", "length(name)")
+        rev = j["order"].endswith("desc")
+        bad_order = None
+        if j["order"].startswith("key") or (j["order"].startswith("unselected") and j["unsel"] == "key"):
             ks = [x[0] for x in rows]
-            allint = all(k.lstrip("-").isdigit() for k in ks) and ks
-            keyf = (lambda s: int(s)) if allint else (lambda s: s)
-            mixed = (not allint) and any(k.lstrip("-").isdigit() for k in ks)
-            want = sorted(ks, key=keyf, reverse=j["order"].endswith("desc"))
-            if not mixed and [keyf(k) for k in ks] != [keyf(k) for k in want]:
-                ctx.violation("impl-violates-spec", "group rows are not sorted by the key", input=case, observed=ks[:12])
-                continue
-        elif j["order"].startswith("agg"):
-            vs = [int(x[j["order_idx"]]) for x in rows]
-            if vs != sorted(vs, reverse=j["order"].endswith("desc")):
-                ctx.violation("impl-violates-spec", "group rows are not sorted by the aggregate", input=case, observed=vs[:12])
-                continue
+            keyf = (lambda s: int(s)) if j["keys"][0] in NUMERIC_KEYS else (lambda s: s.encode("utf-8", "surrogateescape"))
+            if [keyf(k) for k in ks] != sorted((keyf(k) for k in ks), reverse=rev):
+                bad_order = "group rows are not sorted by the key %s: %s" % (j["keys"][0], ks[:12])
+            elif j["rows_b"] is not None and [tuple(x) for x in j["rows_b"]] != [tuple(x[1:]) for x in rows]:
+                bad_order = "ordered by a grouping key that is not selected (%s), the rows are not those of the same query with the key selected, minus that column: %s vs %s" % (j.get("query_b"), j["rows_b"][:6], [x[1:] for x in rows][:6])
+        elif j["order"] in ("agg", "agg desc"):
+            vs = [fnum(x[j["order_idx"]]) for x in rows]
+            if vs != sorted(vs, reverse=rev):
+                bad_order = "group rows are not sorted by the aggregate: %s" % vs[:12]
+        elif j["order"] == "agg_then_key":
+            keyf = (lambda s: int(s)) if j["keys"][0] in NUMERIC_KEYS else (lambda s: s.encode("utf-8", "surrogateescape"))
+            pairs = [(-fnum(x[j["order_idx"]]), keyf(x[0])) for x in rows]
+            if pairs != sorted(pairs):
+                bad_order = "group rows are not sorted by (aggregate desc, key): %s" % [(x[j["order_idx"]], x[0]) for x in rows][:12]
+        elif j["order"].startswith("unselected"):
+            cnt = [len(groups[tuple(x[:nk])]) for x in rows]
+            if cnt != sorted(cnt, reverse=rev):
+                bad_order = "ordered by count(*), which is not selected, the group sizes come out as %s" % cnt[:12]
+        if bad_order:
+            ctx.violation("impl-violates-spec", bad_order, input=case)
+            continue
         st["agreed"] += 1
         st["hist"]["groups_%s" % ("0" if not rows else "1" if len(rows) == 1 else "2-4" if len(rows) <= 4 else "5+")] += 1
         st["hist"]["keys_%d" % nk] += 1
@@ -133,6 +168,6 @@ def run(ctx):
     replay_generic_known(ctx, 'C08')
     ctx.coverage.update(
         evaluations=len(jobs), distinct_nontrivial=len(st["distinct"]), traces_validated_against_impl=st["agreed"],
-        rule="random trees x grouping keys from ext, dir, is_dir, mode, uid, length(name) and pairs x 1-3 aggregates (plain, or wrapped in an ordinary function: abs(sum(..)), concat(count(*), ..)) x optional WHERE x optional ORDER BY on the key or an integer aggregate (asc/desc): one row per distinct key value among the matching entries (from the same query without aggregates), each group's aggregates = exact aggregates of its members, group COUNTs and SUMs add up to the ungrouped COUNT and SUM of the binary, ordered when requested. non-trivial = at least two groups",
+        rule="random trees x grouping keys from ext, dir, is_dir, mode, uid, length(name) and pairs x 1-3 aggregates (plain, or wrapped in an ordinary function: abs(sum(..)), concat(count(*), ..)) x optional WHERE x optional ORDER BY (asc/desc) on the key, on any aggregate (by name or position), on (aggregate desc, key), or on a key / aggregate that is NOT selected: one row per distinct key value among the matching entries (from the same query without aggregates), each group's aggregates = exact aggregates of its members, group COUNTs and SUMs add up to the ungrouped COUNT and SUM of the binary, ordered when requested. non-trivial = at least two groups",
         samples=st["samples"], distribution=dict(st["hist"]))
-    return ctx.finish(trusted=["group rows are compared as a set unless ORDER BY is given (HashMap iteration order); mixed integer / non-integer key values under ORDER BY are a recorded deviation (F14) and not judged"])
+    return ctx.finish(trusted=["group rows are compared as a set unless ORDER BY is given (HashMap iteration order)"])
